@@ -255,8 +255,14 @@ class PopAllLoop:
     def run_for(self, I, node, it, fr):
         tgt = node.target.id if isinstance(node.target, _ast.Name) else None
         # (the loop variable may have any name)
-        if not (tgt and len(node.body) == 1 and _ast.unparse(node.body[0]) == tgt + '.popleft()'
-                and _ast.unparse(node.iter) == 'self.buffers.values()'):
+        if tgt and len(node.body) == 1 and _ast.unparse(node.body[0]) == tgt + '.pop()' \
+                and _ast.unparse(node.iter) == 'self.buffers.values()':
+            # the entries just emitted are the HEADS (oldest) of the buffers; pop() removes the newest entry instead
+            I.oblige('zip.consumes_the_oldest_entry_of_every_buffer', False, kind='callsite',
+                     note='deque.pop() removes from the right end; the tuple was built from the left ends')
+            I.st.obligations[-1].props = ['C01', 'C02']
+        elif not (tgt and len(node.body) == 1 and _ast.unparse(node.body[0]) == tgt + '.popleft()'
+                  and _ast.unparse(node.iter) == 'self.buffers.values()'):
             raise Unsupported('the pop-all loop of zip.update has changed shape: ' + _ast.unparse(node))
         selfv = fr.locals['self']
         dv = I.get_attr(selfv, 'buffers', fr)
